@@ -33,6 +33,9 @@ const SCHEMAS = [
   S('assign', 'arr[i++] += @Y@'),
   S('assign', 'o[f()] += @Y@'),
   S('assign', 'g()[f()] += @Y@'),
+  S('assign', 'o[a, k] += @Y@'),
+  S('assign', 'o[(f(), k)] += @Y@'),
+  S('assign', 'o[(o = E.o2, k)] += @Y@'),
   S('assign', 'o.q[i++] += @Y@'),
   S('assign', 'g(1).q[h(k)] += @Y@'),
   S('ctl', 'x -= @Y@'),
@@ -55,6 +58,13 @@ const SCHEMAS = [
   S('method', 'a.toUpperCase(@X@)'),
   S('method', 'a.concat(...arr)'),
   S('method', 'a.concat(@X@, ...arr, @Y@)'),
+  S('method', 'a.concat(@X@, function (m, p = f()) { return p })'),
+  S('method', 'a.concat(@X@, h(function (p = b + f()) { return p })())'),
+  S('plus', '@X@ + h(function (p = b + f()) { return p })()'),
+  S('plus', '@X@ + ({ m(p = `${b}${f()}`) { return p } }).m()'),
+  S('chain', 's?.trim?.().trim()'),
+  S('chain', 'o?.q.trim?.().concat(@X@)'),
+  S('chain', 's?.trim?.()?.trim()'),
   S('method', 'a.concat(...@S@)'),
   S('method', 'a.concat(@X@, ...@S@)'),
   S('proto', 'X.prototype.concat.call(a, ...@S@)'),
